@@ -2,6 +2,7 @@ import TeosVerif.Driver.TxIndexDrv
 import TeosVerif.Driver.TowerDrv
 import TeosVerif.Driver.SlotsDrv
 import TeosVerif.Driver.ConfigDrv
+import TeosVerif.Driver.LocksDrv
 /- The model driver: one operation per input line, one canonical output line per operation. -/
 open Teos Teos.Drv
 
@@ -15,6 +16,7 @@ def step (st : DState) (line : String) : DState × String :=
   | "ti" :: rest => let (t, o) := tiStep st.ti rest; ({ st with ti := t }, o)
   | "sl" :: rest => (st, slStep rest)
   | "cf" :: rest => (st, cfStep rest)
+  | "cc" :: rest => (st, ccStep rest)
   | "tw" :: rest => let (t, o) := twStep st.tw rest; ({ st with tw := t }, o)
   | _ => (st, "bad-op")
 
